@@ -36,6 +36,22 @@ let handle (line : string) : string =
       Printf.sprintf "%d:%d" (int_of_n a) (int_of_n b)) r.syncs) in
     Printf.sprintf "I %s %d %d %s %s" (status_s r.status) (int_of_n r.bitpos)
       (int_of_n r.maxdist) (hex_of_bytes r.out) (if sy = "" then "-" else sy)
+  | "W" :: sync :: level :: win :: fail :: ops ->
+    (* writer model: W <0|1 sync> <level> <0|1 win4k> <failAt or 0> ops...  (w<hex> | f | c | r) *)
+    let lv = int_of_string level in
+    let z = if lv = 0 then Z0 else if lv > 0 then Zpos (pos_of_int lv) else Zneg (pos_of_int (-lv)) in
+    let fa = int_of_string fail in
+    let ops = List.filter (fun o -> o <> "") ops in
+    let ops = List.map (fun o ->
+      match o.[0] with
+      | 'w' -> OWrite (bytes_of_hex (let t = String.sub o 1 (String.length o - 1) in if t = "" then "-" else t))
+      | 'f' -> OFlush | 'c' -> OClose | 'r' -> OReset
+      | _ -> failwith "op") ops in
+    let r = wrun (sync = "1") z (win = "1") (if fa = 0 then None else Some (n_of_int fa)) ops in
+    let res = String.concat "," (List.map (fun (n, e) -> Printf.sprintf "%d:%d" (int_of_n n) (if e then 1 else 0)) r.wres) in
+    let dests = String.concat "|" (List.map (fun chunks ->
+      if chunks = [] then "." else String.concat "," (List.map hex_of_bytes chunks)) r.wdests) in
+    Printf.sprintf "W %d %s %s" (if r.woob then 1 else 0) (if res = "" then "-" else res) dests
   | _ -> "ERR bad request"
 
 let () =
